@@ -45,6 +45,10 @@ type C08Session struct {
 // (basis length, block length, strong checksum length)
 var c08Plans = [][3]int{{51, 16, 16}, {48, 16, 16}, {16, 16, 2}, {64, 64, 2}, {1400, 700, 16}, {700, 700, 2}, {33, 11, 8}, {5, 8, 16}, {256, 1, 1}}
 
+// filter lists a hostile client sends: rules the implementation cannot
+// honour must end the session with an error, not crash the daemon later
+var c08Filters = [][]string{{"- nothing"}, {"- nothing"}, {"- *.o"}, {"+ a?c", "- alpha"}, {"- [ab]eta"}, {"- **"}, {"- dir/*"}, {"+ */", "- *"}, {"!"}, {"- alpha", "+ alpha", "- dir/"}, {"-nospace"}, {""}}
+
 func c08Plan(variant int) func(idx int, e *refproto.Entry, seed int32) (bool, []byte, int, int) {
 	if variant < 0 {
 		variant = -variant
@@ -90,6 +94,9 @@ func genMutation(g *Gen, fields []string) *refproto.Mutation {
 	cl := c08Classes[g.R.Intn(len(c08Classes))]
 	if c08CountLike[f] && cl == "max" {
 		cl = "big"
+	}
+	if (f == "rep.idx" || f == "req.idx") && g.R.Intn(3) == 0 {
+		cl = "listlen" // exactly one past the last entry
 	}
 	return &refproto.Mutation{Field: f, Nth: g.R.Intn(6), Class: cl}
 }
@@ -167,7 +174,7 @@ func (c08) Generate(seed uint64, tier string, index int) any {
 		if sc.Target == "daemon" {
 			switch g.R.Intn(10) {
 			case 0, 1, 2:
-				s = C08Session{Kind: "pull-mut", Mut: genMutation(g, c08ClientPullFields), Module: []string{"ro", "fsm", "rw"}[g.R.Intn(3)], Plan: g.R.Intn(len(c08Plans))}
+				s = C08Session{Kind: "pull-mut", Mut: genMutation(g, c08ClientPullFields), Module: []string{"ro", "fsm", "rw"}[g.R.Intn(3)], Plan: g.R.Intn(len(c08Plans) * len(c08Filters))}
 			case 3, 4, 5:
 				s = C08Session{Kind: "push-mut", Mut: genMutation(g, c08ClientPushFields), Opts: []string{"-r", "-rlogD", "-rc", "-r --delete"}[g.R.Intn(4):][:1]}
 			case 6:
@@ -337,7 +344,7 @@ func c08Daemon(t *testing.T, sc *C08Scenario, job *Job, res *Result) {
 			case "pull-mut", "cut-pull":
 				out, _ = runParty("hostile", func(w *refproto.Wire, end *kernel.End) error {
 					w.Mut = mut
-					_, err := refproto.Pull(w, refproto.PullOpts{Daemon: true, Module: mod, Args: []string{"--server", "--sender", "-r", ".", mod + "/"}, Filters: []string{"- nothing"}, ServerIsSender: true, MaxData: 1 << 20,
+					_, err := refproto.Pull(w, refproto.PullOpts{Daemon: true, Module: mod, Args: []string{"--server", "--sender", "-r", ".", mod + "/"}, Filters: c08Filters[s.Plan%len(c08Filters)], ServerIsSender: true, MaxData: 1 << 20,
 						Plan: c08Plan(s.Plan)})
 					return err
 				}, s.CutAt)
